@@ -150,12 +150,29 @@ func judgeEvents(r *Run, w *World, e *Engine) {
 					}
 				}
 			}
+			// a registration submitted in full by a process that died before it could read the answer may or may not
+			// have been processed: such a name is neither required nor forbidden, and its state line is not judged
+			maybe := map[string]bool{}
+			for _, a := range e.Actors() {
+				if a.IsRT || a.P.Gen != gen {
+					continue
+				}
+				for _, c := range a.Calls {
+					if c.Tag == "ext-register" && c.Done && c.Err != nil && !a.P.Alive && c.StartStep <= report.Step {
+						maybe[strings.TrimSpace(c.ReqHdr["Lambda-Extension-Name"])] = true
+					}
+				}
+			}
 			var want, got []string
 			for n := range created {
-				want = append(want, n)
+				if !maybe[n] {
+					want = append(want, n)
+				}
 			}
 			for _, x := range extLines {
-				got = append(got, x.Ext.AgentName)
+				if !maybe[x.Ext.AgentName] {
+					got = append(got, x.Ext.AgentName)
+				}
 			}
 			sort.Strings(want)
 			sort.Strings(got)
@@ -164,6 +181,9 @@ func judgeEvents(r *Run, w *World, e *Engine) {
 			}
 			for _, x := range extLines {
 				a := known[x.Ext.AgentName]
+				if a == nil && maybe[x.Ext.AgentName] {
+					continue
+				}
 				if a == nil {
 					r.Check(x.Ext.State == "Started" || x.Ext.State == "LaunchError", "C15.extension-state", "extension %s never registered but its status line says %q", x.Ext.AgentName, x.Ext.State)
 					continue
